@@ -24,11 +24,11 @@ EVAL_KEY = "loads_judged"
 DISTINCT_KEY = "cases"
 NSHARDS = {"quick": 8, "thorough": 16}
 FLOORS = {"quick": {"loads_judged": 400, "open_event_checks": 200, "depth_boundary_cases": 50, "no_expand_cases": 80, "no_expand_self_contained_judged": 80,
-                    "no_expand_write_back_judged": 50, "missing_file_cases": 25},
+                    "no_expand_write_back_judged": 50, "missing_file_cases": 25, "missing_file_then_restored_cases": 25},
           "thorough": {"loads_judged": 12000, "open_event_checks": 7000, "depth_boundary_cases": 2000, "no_expand_cases": 2500, "no_expand_self_contained_judged": 2500, "no_expand_write_back_judged": 1500,
-                       "missing_file_cases": 700}}
+                       "missing_file_cases": 700, "missing_file_then_restored_cases": 700}}
 ASSUMPTIONS = ["flatten() substitutes over the generator's own tree (it never re-scans text)", "audit 'open' events are complete for builtins.open / io.open"]
-DOMAIN = ["file names without spaces or '#'; INCLUDE directives on their own line outside strings and comments (documents with strings running over several lines are cut between statements only)",
+DOMAIN = ["file names holding a blank or '#' are written quoted; INCLUDE directives on their own line outside strings and comments (documents with strings running over several lines are cut between statements only)",
           "with expand_includes=False the directives sit inside object blocks (a directive outside any block is not Mapfile data) and the root is "
           "a complete document on its own (directives stand for whole statements / whole blocks); write-back is judged for dictionaries without "
           "the quote character or a backslash in a string (C01's domain)"]
@@ -50,7 +50,8 @@ class Inc:
 
     def line(self, rootdir):
         st = self.style
-        if st["quote"] == "none" and not (self.target.rel.split("/")[-1][0].isalnum() or self.target.rel.split("/")[-1][0] == "_"):
+        if st["quote"] == "none" and (not (self.target.rel.split("/")[-1][0].isalnum() or self.target.rel.split("/")[-1][0] == "_")
+                                      or " " in self.target.rel or "#" in self.target.rel):
             st = dict(st, quote="dq")  # (only plain names can be written without quotes)
         path = os.path.join(rootdir, self.target.rel) if st["abs"] else self.target.rel
         q = {"dq": '"', "sq": "'", "none": ""}[st["quote"]]
@@ -80,10 +81,12 @@ class TreeGen:
     def newfile(self, depth):
         self.n += 1
         r = self.r
-        sub = r.choice(["", "", "inc", "inc/deep", "parts", "a.b"])
+        sub = r.choice(["", "", "inc", "inc/deep", "parts", "a.b", "sub dir"])
         name = r.choice(["part", "layer", "inc_file", "x-y", "UPPER", "f", "part", "layer",
                          # legal file names that start with something else than a letter or digit (always written quoted)
-                         "@shared", "(old)", "+extras", "[major]", "~tmp", "=x", "é", "_u", "-dash", "!bang", "&amp", "%pct"]) + str(self.n) + r.choice([".map", ".inc", ".txt", ""])
+                         "@shared", "(old)", "+extras", "[major]", "~tmp", "=x", "é", "_u", "-dash", "!bang", "&amp", "%pct",
+                         # ... and names holding a blank or a # (always written quoted)
+                         "two words", "part one", "with#hash", "a b#c d"]) + str(self.n) + r.choice([".map", ".inc", ".txt", ""])
         f = File((sub + "/" if sub else "") + name, depth)
         f.eol = r.choice(["\n", "\n", "\r\n"])
         f.trailing_newline = r.random() < 0.7
@@ -607,7 +610,10 @@ def _run(ctx, base):
         # missing file
         if depth >= 1 and depth <= 5 and j % 3 == 0:
             victim = r.choice(files[1:])
-            os.remove(os.path.join(rootdir, victim.rel))
+            vpath = os.path.join(rootdir, victim.rel)
+            with open(vpath, "rb") as fh:
+                vbytes = fh.read()
+            os.remove(vpath)
             res.count("missing_file_cases")
             # a file of that relative name exists in the current directory: it must not be used instead
             os.chdir(cwds[0])
@@ -624,6 +630,22 @@ def _run(ctx, base):
             except Exception as ex:
                 res.violation("missing-include-file-wrong-error", {"via": "open", "root": root_path, "missing": victim.rel},
                               f"{type(ex).__name__}: {str(ex)[:200]}", "an I/O error (OSError)")
+            # the file appears again (restored from a backup, written by another process): the same call in the same process now gives
+            # the flattened document - a failed call leaves nothing behind
+            with open(vpath, "wb") as fh:
+                fh.write(vbytes)
+            res.count("missing_file_then_restored_cases")
+            for via in ("open", "open"):
+                try:
+                    d2 = mappyfile.open(root_path)
+                except Exception as ex:
+                    res.violation("include-tree-not-loaded-after-the-missing-file-was-restored", {"via": via, "root": root_path, "restored": victim.rel},
+                                  f"{type(ex).__name__}: {str(ex)[:200]}", "same as the flattened text")
+                    break
+                if core.plain(d2) != want:
+                    res.violation("include-expansion-differs-from-substitution", {"via": via, "root": root_path, "restored": victim.rel, "after": "a failed call"},
+                                  core.first_diff(want, core.plain(d2)), None)
+                    break
         if len(res.samples) < 2 and 1 <= depth <= 3 and ninc <= 4:
             res.sample({"depth": depth, "files": {f.rel: f.eol.join(e.line("<rootdir>") if isinstance(e, Inc) else e for e in f.entries)[:400]
                                                   for f in files}})
